@@ -523,3 +523,117 @@ def rule_loop_exhausted(rep, prog, rule, fid, inner_names, inner_what, key=None)
     if good:
         rep.ok(rule, key, "the only non-error edge out of the innermost loop is the None arm of its Iterator::next", site=site(body, ins[0][0]))
     return good
+
+
+def dominating_guards(body, target):
+    """conditions that control whether block `target` is reached: list of (switch block, taken arm
+    values, operand local) for every switch from which `target` is reachable through some arms but
+    not through the others (with the switch itself blocked)."""
+    out = []
+    for sb in body.normal_blocks():
+        t = body.term(sb)
+        if t["k"] != "switch" or op_local(t["on"]) is None:
+            continue
+        if target not in body.reachable((sb,)):
+            continue
+        arms = [(v, tg) for v, tg in t["vals"]] + [("else", t["else"])]
+        through = []
+        for v, tg in arms:
+            if tg is None:
+                continue
+            if target in body.reachable((tg,), blocked=frozenset({sb})):
+                through.append(v)
+        if through and len(through) < len([1 for v, tg in arms if tg is not None]):
+            out.append((sb, tuple(through), op_local(t["on"])))
+    return out
+
+
+def promoted_variant(prog, body, local):
+    """(adt, variant) when `local` is (a reference to) a constant enum value — a local aggregate or a
+    promoted constant — else None"""
+    from .model import trace_back
+    tr = trace_back(body, local)
+    if not tr:
+        return None
+    last = tr[-1]
+    if last[0] == "agg" and isinstance(last[1], str) and "::" in last[1]:
+        adt, _, var = last[1].rpartition("::")
+        return (adt, var)
+    if last[0] == "uneval":
+        ds = body.defs()
+        cur = local
+        for _ in range(6):
+            d = ds.get(cur, [])
+            if len(d) != 1 or d[0][0] != "stmt":
+                return None
+            st = d[0][3]
+            o = (st.get("o") or [None])[0]
+            if o is not None and "promoted" in o:
+                pb = prog.bodies.get("%s::{promoted#%d}" % (o["uneval"], o["promoted"]))
+                if pb is None:
+                    return None
+                for bi in pb.normal_blocks():
+                    for s2 in pb.stmts(bi):
+                        if s2.get("r") == "agg" and s2.get("ak") == "adt" and s2.get("variant"):
+                            return (s2.get("adt"), s2.get("variant"))
+                return None
+            pl = op_place(o) if o is not None else st.get("p")
+            if pl is None:
+                return None
+            cur = place_local(pl)
+    return None
+
+
+def guard_evidence(prog, body, local, depth=0):
+    """leaves that decide a guard operand: provenance leaves, following comparison calls
+    (PartialEq::eq / ne, PartialOrd::*) into their arguments; constants of enum type are reported as
+    ('variant', adt, name)"""
+    out = set()
+    for leaf in provenance(body, local):
+        out.add(leaf[:2])
+        if leaf[0] == "call" and depth < 2 and (leaf[1].endswith(("PartialEq>::eq", "PartialEq>::ne", "PartialEq::eq", "PartialEq::ne")) or "PartialOrd" in leaf[1]):
+            t = body.term(leaf[2])
+            for a in t.get("args", []):
+                l = op_local(a)
+                if l is None:
+                    continue
+                pv = promoted_variant(prog, body, l)
+                if pv:
+                    out.add(("variant", pv[0], pv[1]))
+                else:
+                    out |= guard_evidence(prog, body, l, depth + 1)
+    return out
+
+
+def place_ty(prog, body, place):
+    """type row of a place (follows derefs, field and downcast projections through the ADT table);
+    None when a projection cannot be resolved (generic field types stay unsubstituted)"""
+    from .model import place_proj
+    row = body.local_ty(place_local(place))
+    crate = body.crate
+    variant = None
+    for e in place_proj(place):
+        if row is None:
+            return None
+        if e == "*":
+            if row.get("k") in ("ref", "rawptr") or (row.get("k") == "adt" and row.get("def") == "alloc::boxed::Box"):
+                row = prog.crate_types[crate][row["a"][0]]
+            else:
+                return None
+        elif e.startswith("d:"):
+            variant = e.split(":", 2)[2]
+        elif e.startswith("f:"):
+            _, idx, name, owner = e.split(":", 3)
+            adt = prog.adts.get(owner)
+            if adt is None:
+                return None
+            vs = [v for v in adt["variants"] if variant is None or v["name"] == variant] or adt["variants"]
+            fs = vs[0]["fields"]
+            if int(idx) >= len(fs):
+                return None
+            crate = adt["_crate"]
+            row = prog.crate_types[crate][fs[int(idx)]["ty"]]
+            variant = None
+        else:
+            return None
+    return dict(row, _crate=crate) if row is not None else None
